@@ -613,7 +613,12 @@ def r5(ctx, kind, fn, m, sems, W, G):
 RULES["R03.1"] += " | entries-stay-in-place (who-may-permute): over every function of the property's modules, no Vec/slice operation that moves entries to other positions (reverse, swap, rotate, sort .., mem::swap of two entries) outside the table of sites confirmed on the pinned tree (common.PERMUTING_SITES)"
 
 
+RULES["R03.1"] += " | writes-inside-the-walk: the same test for the five optimizer update functions: parameters, gradients and state entries are written only inside the element-wise walk"
+
+
 def run(ctx):
+    from .common import writes_inside_the_walk
+    ctx.guard("R03.1", "writes-inside-the-walk", writes_inside_the_walk, ctx, "R03.1", {"src/optimizer.rs"}, lambda p_, l_, f_: l_ == "update" and not p_.endswith("Optimizer::update"), 5)
     from .common import no_permuting_ops
     ctx.guard("R03.1", "entries-stay-in-place", no_permuting_ops, ctx, "R03.1", "optimizer", {"src/optimizer.rs"}, 15)
     for kind in KINDS:
